@@ -12,7 +12,8 @@ EXPLANATION = (
     "(d) timeout ordering SearchTimeout → SearchStopped → removal, deadline armed as a timer, reschedule bounded by "
     "the deadline; (e) evicted addresses reach AddressesRemoved (F10); (f) AddressesFound is built only from "
     "get_addresses_for_host, whose address accessor is guarded by a liveness test and tagged with the record's "
-    "interface.  Decides these structural clauses, not which addresses over which history.")
+    "interface.  Decides these structural clauses, not which addresses over which history."
+    " (g) Every path that ends a hostname search purges its pending ResolveHostname rerun.")
 UNDECIDED = ["which addresses are reported over which arrival history", "exact time of SearchTimeout",
              "doubling schedule (decided under C19)"]
 
